@@ -11,6 +11,8 @@ pub mod c03;
 pub mod c04;
 pub mod c05;
 pub mod c06;
+pub mod c07;
+pub mod c08;
 pub mod c14;
 pub mod c15;
 pub mod c18;
@@ -44,6 +46,9 @@ table! {
     c14::h_list_lines,
     c15::h_all_kinds,
     c15::h_files,
+    c07::h_roundtrip,
+    c08::h_edits,
+    c08::h_completed,
     c03::h_laws2,
     c03::h_trans,
     c03::h_api_laws,
